@@ -36,7 +36,7 @@ CHECKS["C15"] = dict(
     category="model_checking", design_ref="DESIGN.md §5 C15",
     text="CSSMatch!Narrow is the standard's narrowing written declaratively; TLC first proves over a grid (3.4M states) that it always yields a non-empty uniform subset and that exact matches win, "
          "then evaluates it against the indices retained by the real code for every multiset of <= K candidates over the grid and every request, plus random larger lists. A pure function over a small value domain: exhaustive grids are the right level.",
-    note="Trusts TLC and the verif export VerifRetainBest (a 6-line wrapper around fontSet.retainsBestMatches). Values outside the grids are sampled only.")
+    note="Each candidate list is narrowed twice: as a font set of its own and as a scattered, permuted subset of a larger font set (second verif export). Trusts TLC and the verif export VerifRetainBest (a 6-line wrapper around fontSet.retainsBestMatches). Values outside the grids are sampled only.")
 
 CHECKS["C14"] = dict(
     engine="fm",
@@ -44,7 +44,7 @@ CHECKS["C14"] = dict(
     category="model_checking", design_ref="DESIGN.md §5 C14",
     text="FontMap!Allowed(db, query, script, rune) is the set of faces the documented priority permits; TLC (a) proves that the cache/flag design refines it for all histories up to a bound, "
          "(b) enumerates every history up to length D over a small operation alphabet, which the harness executes on the real FontMap with synthetic fonts, and (c) validates these and random 25-step histories event by event: NonNil, Priority, Functional (memo across the trace), FreshEq (same answer as a map rebuilt from scratch).",
-    note="Trusts TLC, synthetic fonts written by WriteTTF (cmap 12 + head + maxp), intended coverage as fact. Substitution tables and system-font index are outside this check. Bounded history length / alphabet.")
+    note="Family substitution: the expanded family list of each query (a port of fontconfig tables) is a fact read through a verif export; FontMap.tla specifies how it orders the candidates (strong/weak, script-first, score, mono, TrueType, insertion) and Priority is judged on substituted and generic queries too; substitution histories come from FontMapGenSubs.tla. Trusts TLC, synthetic fonts written by WriteTTF (cmap 12 + head + maxp), intended coverage as fact. Substitution tables and system-font index are outside this check. Bounded history length / alphabet.")
 
 CHECKS["C19"] = dict(
     engine="sfnt",
@@ -52,7 +52,7 @@ CHECKS["C19"] = dict(
     category="model_checking", design_ref="DESIGN.md §5 C19",
     text="Every predicate of Sfnt.tla (Header, DirectoryOrder, Checksums, Lengths, Offsets, ReadBack by a decoder written in TLA+, LoaderTags/LoaderReadBack through the real reader, InputsUntouched incl. spare capacity) is evaluated by TLC on every length vector of <= K tables with lengths 0..9 (all residues mod 4) and on random lists of up to 40 tables. "
          "A pure function of a list of byte strings whose case analysis is in the length residues: exhaustive over residues is the right level.",
-    note="Trusts TLC and the harness's byte logging. Table contents are sampled by seed (the layout does not depend on them, the checksum does linearly). Files larger than a few KB are not generated.")
+    note="Each table list is written twice from the same []Table value with the contents reversed in place in between. Trusts TLC and the harness's byte logging. Table contents are sampled by seed (the layout does not depend on them, the checksum does linearly). Files larger than a few KB are not generated.")
 
 CHECKS["C11"] = dict(
     engine="cmap",
@@ -85,7 +85,7 @@ CHECKS["C16"] = dict(
     category="model_checking", design_ref="DESIGN.md §5 C16",
     text="TLC explores every history of file operations, refreshes, saves, crashes and loads up to length D over 2 paths x 3 contents and checks the mtime-keyed reuse rule against 'refresh = scan from scratch' (with the monotone-clock assumption explicit). "
          "Each history ending in a refresh is replayed with real font files; the monitor re-steps the file-system model and checks ScratchExact, RefreshEqScratch, RoundTrip, TornSafe/TornWellFormed at Load, and for every prefix and sampled byte flips of a serialized index: no panic, prefix decodes to error or the same index, and a scan after any successful read equals the scratch scan.",
-    note="Trusts os.Chtimes as the clock, sha1 digests of serialized footprints, TLC. Symlinks/permissions and concurrent writers are not modelled. Byte flips are sampled in the quick tier (every third byte), all bytes in thorough.")
+    note="Histories writing a.ttf are also executed through a symbolic link to a file outside the scanned tree; one content is a 3-face collection. Trusts os.Chtimes as the clock, sha1 digests of serialized footprints, TLC. Symlinks/permissions and concurrent writers are not modelled. Byte flips are sampled in the quick tier (every third byte), all bytes in thorough.")
 
 CHECKS["C01"] = dict(
     engine="shape",
